@@ -18,3 +18,21 @@ pub fn vec_contains<K: PartialEq>(ks: &Vec<K>, k: &K) -> (r: bool)
     ks.contains(k)
 }
 
+
+
+// ---- stand-ins for the block types TxIndex::new consumes (bitcoin::Block, lightning_block_sync::{BlockData, ValidatedBlock}) ----
+pub struct Block { pub header: Header, pub txdata: Vec<Transaction> }
+pub enum BlockData { HeaderOnly(Header), FullBlock(Block) }
+pub mod lightning_block_sync { pub use super::BlockData; }
+pub struct ValidatedBlock { pub inner: BlockData }
+impl ValidatedBlock {
+    pub fn deref(&self) -> (r: &BlockData) ensures *r == self.inner { &self.inner }
+}
+// the keys a block contributes to an index with key type K (K::from_txid over its transactions): uninterpreted
+pub uninterp spec fn block_keys<K>(b: Block) -> Set<K>;
+// TRUSTED (rule E12): `block.txdata.iter().map(|tx| (K::from_txid(tx.compute_txid()), V::from_data(..))).collect()`;
+// only the key set matters to the index structure, the values are whatever Value::from_data builds
+#[verifier::external_body]
+pub fn block_entries<K: Key, V>(block: &Block) -> (r: HashMap<K, V>)
+    ensures r@.dom() =~= block_keys::<K>(*block), r@.dom().finite(),
+{ unimplemented!() }
